@@ -379,6 +379,17 @@ def main():
                 if not agree:
                     disagreements.append(c)
 
+    # ---- 6b: the theorem's hypotheses evaluated by the model on the cases that carry a hyp_line
+    hyp_cases = [c for c in cases if c.get("hyp_line")]
+    hyp_evaluated = hyp_true = 0
+    if hyp_cases and not any(b[0] == "model-runner" for b in broken):
+        houts, _ = run_model([c["hyp_line"] for c in hyp_cases])
+        if len(houts) == len(hyp_cases):
+            for c, ho in zip(hyp_cases, houts):
+                hyp_evaluated += 1
+                c["hyp_ok"] = (ho.strip() == "1")
+                hyp_true += 1 if c["hyp_ok"] else 0
+
     # ---- 7: kernel re-evaluation of a sample of the same cases
     kx_n = kx_ok = 0
     if model_outs and len(model_outs) == len(model_cases):
@@ -450,6 +461,7 @@ def main():
             "samples": samples or [{"note": "no cases ran"}],
             "case_kinds": kinds,
             "hypotheses_met": sum(1 for c in cases if c.get("hyp_ok")),
+            "hypotheses_evaluated_by_model": hyp_evaluated, "hypotheses_true_by_model": hyp_true,
             "model_cases": len(model_cases), "disagreements": len(disagreements),
             "disagreements_checked": len(model_cases),
             "oracle_failures": len(oracle_fail), "known_finding_hits": {s: k["what"] for s, (k, _) in known_hits.items()},
